@@ -25,7 +25,6 @@
 EXTENDS Numbers, Colors
 
 Magic == << 137, 73, 86, 71 >>
-DefaultViewBox == << << 49664, 0 >>, << 49664, 0 >>, << 16896, 0 >>, << 16896, 0 >> >>  \* -32 -32 32 32
 
 Call(op) == [op |-> op, adj |-> 0, incr |-> 0, sel |-> 0, f |-> << >>, c |-> << >>,
              fl |-> << >>, pal |-> << >>]
